@@ -24,7 +24,7 @@ From NoKV Require Import Base.Sched Model.SchedLib.
 Import ListNotations.
 Local Open Scope N_scope.
 
-Inductive result := ResReleased | ResBusy.
+Inductive result := ResReleased | ResBusy | ResFailed.   (* ResFailed: Release reported an error (unlink failed) *)
 
 Inductive pc :=
 | POpen                  (* parked before OpenFileHandle *)
@@ -62,6 +62,9 @@ Fixpoint drop (i : N) (t : nat) (l : list (N * nat)) : list (N * nat) :=
 
 Section Variant.
   Variable fixed : bool.
+  (** contenders whose unlink of LOCK fails (I/O error): the path keeps naming the inode, Release goes on
+      (unlock, close), reports the error and clears its handle, so a second Release does nothing *)
+  Variable faulty : nat -> bool.
 
   Definition with_pc (g : gstate) (t : nat) (p : pc) : gstate :=
     {| g_path := g_path g; g_next := g_next g; g_locks := g_locks g; g_pcs := set_nth t p (g_pcs g) |}.
@@ -96,14 +99,16 @@ Section Variant.
                     g_pcs := set_nth t POpen (g_pcs g) |}
         | PHold i => Some (with_pc g t (if fixed then PRemove i else PUnlock i))
         | PRemove i =>
-            Some {| g_path := None; g_next := g_next g; g_locks := g_locks g;
-                    g_pcs := set_nth t (if fixed then PUnlock i else PDone ResReleased) (g_pcs g) |}
+            Some {| g_path := if faulty t then g_path g else None; g_next := g_next g; g_locks := g_locks g;
+                    g_pcs := set_nth t (if fixed then PUnlock i
+                                        else PDone (if faulty t then ResFailed else ResReleased)) (g_pcs g) |}
         | PUnlock i =>
             Some {| g_path := g_path g; g_next := g_next g; g_locks := drop i t (g_locks g);
                     g_pcs := set_nth t (PClose i) (g_pcs g) |}
         | PClose i =>
             Some {| g_path := g_path g; g_next := g_next g; g_locks := drop i t (g_locks g);
-                    g_pcs := set_nth t (if fixed then PDone ResReleased else PRemove i) (g_pcs g) |}
+                    g_pcs := set_nth t (if fixed then PDone (if faulty t then ResFailed else ResReleased)
+                                        else PRemove i) (g_pcs g) |}
         | PDone _ => None
         end
     end.
